@@ -8,23 +8,29 @@ def decArg (j : Json) : Except String Arg := do
   let star ← match (← getStr j "star") with
     | "" => pure Star.none | "*" => pure Star.one | "**" => pure Star.two
     | s => .error s!"bad-op: star {s}"
-  pure { kw := ← getOpt j "kw" asStr, star := star, val := ← getStr j "val" }
+  let gen ← match j.getObjVal? "gen" with
+    | .ok (.bool b) => pure b
+    | .ok _ => .error "bad-op: field gen not a bool"
+    | .error _ => pure false
+  pure { kw := ← getOpt j "kw" asStr, star := star, val := ← getStr j "val", gen := gen }
 
 def encArg (a : Arg) : Json :=
   jobj [("kw", match a.kw with | some k => jstr k | none => Json.null),
-        ("star", jstr (match a.star with | .none => "" | .one => "*" | .two => "**")), ("val", jstr a.val)]
+        ("star", jstr (match a.star with | .none => "" | .one => "*" | .two => "**")), ("val", jstr a.val), ("gen", jbool a.gen)]
 
 def opReplaceArgs (j : Json) : Except String Json := do
   let args ← getList j "args" decArg
   let info ← getList j "spec" fun n => do
     pure ({ name := ← getStr n "name", value := ← getStr n "value", addIfMissing := ← getBool n "add_if_missing" } : NewArg)
   let out := replaceArgs args info
-  pure <| jobj [("args", jarr (out.map encArg)), ("wf_in", jbool (wf args)), ("wf_out", jbool (wf out)),
-                ("twice", jarr ((replaceArgs out info).map encArg))]
+  let upd := updateArgTarget out
+  pure <| jobj [("args", jarr (out.map encArg)), ("wf_in", jbool (wfGen args)), ("wf_out", jbool (wfGen out)),
+                ("twice", jarr ((replaceArgs out info).map encArg)),
+                ("updated", jarr (upd.map encArg)), ("wf_updated", jbool (wfGen upd))]
 
 def opAddArg (j : Json) : Except String Json := do
   let args ← getList j "args" decArg
-  let out := addArg args (← getStr j "name") (← getStr j "value")
-  pure <| jobj [("args", jarr (out.map encArg)), ("wf_in", jbool (wf args)), ("wf_out", jbool (wf out))]
+  let out := addArgToCall args (← getStr j "name") (← getStr j "value")
+  pure <| jobj [("args", jarr (out.map encArg)), ("wf_in", jbool (wfGen args)), ("wf_out", jbool (wfGen out))]
 
 end CM.Driver
